@@ -180,8 +180,13 @@ func checkC08V0(t *Toks) string {
 	tag := t.Next()
 	v0SkipOracle(t)
 	p := v0ReadPset(t)
-	if !v0WfCore(p, false) {
+	if !v0WfCore(p, true) {
 		return "SKIP outside-wire-domain"
+	}
+	if !v0WuFloor(p) {
+		// a witness UTXO with the one-byte null value and a script shorter than 8 bytes is below
+		// the 44-byte floor of readTxOut: not a value an output can have (stated exclusion v0_wufloor)
+		return "SKIP null-value-utxo-below-floor"
 	}
 	before := v0Fields(p)
 	orig := v0Clone(p)
@@ -204,11 +209,13 @@ func checkC08V0(t *Toks) string {
 			return fail("parse", "hex-and-base64-parsers-differ")
 		}
 		if st != "ok" {
-			switch {
-			case v0HasEmptyPath(orig):
+			if v0HasEmptyPath(orig) {
 				return fail("roundtrip.reject", "bip32-empty-path")
-			case !v0Wu45(orig):
-				return fail("roundtrip.reject", "witness-utxo-44-bytes")
+			}
+			for i := range orig.Inputs {
+				if o := orig.Inputs[i].WitnessUtxo; o != nil && len(v0SerWu(o)) == 44 {
+					return fail("roundtrip.reject", "witness-utxo-44-bytes")
+				}
 			}
 			return fail("roundtrip.reject", "own-serialization/"+tag)
 		}
@@ -268,17 +275,27 @@ func checkC08V0Raw(t *Toks) string {
 		return r
 	}
 	var q *pset.Pset
+	skip := ""
 	if r := v0Guard("reparse", func() string {
 		q, st = v0Parse(re)
 		if st != "ok" {
-			if !v0Wu45(orig) {
-				return fail("roundtrip.reject", "witness-utxo-44-bytes")
+			if !v0WuFloor(orig) {
+				skip = "SKIP null-value-utxo-below-floor"
+				return ""
+			}
+			for i := range orig.Inputs {
+				if o := orig.Inputs[i].WitnessUtxo; o != nil && len(v0SerWu(o)) == 44 {
+					return fail("roundtrip.reject", "witness-utxo-44-bytes")
+				}
 			}
 			return fail("roundtrip.reject", "accepted-encoding")
 		}
 		return ""
 	}); r != "" {
 		return r
+	}
+	if skip != "" {
+		return skip
 	}
 	if r := v0Compare(before, orig, q); r != "" {
 		return r
